@@ -776,6 +776,11 @@ func TestVerifChild_C08(t *testing.T) {
 	if sc.From > 0 {
 		c08AppendLine(sc.Out, c08Observe(h, sc.Cfg, "recover", sc.From-1), false)
 	}
+	// the parent of a timed kill starts its clock when this file appears
+	_ = os.WriteFile(sc.Ack+".ready", []byte(strconv.FormatInt(time.Now().UnixNano(), 10)), 0o644)
+	defer func() {
+		_ = os.WriteFile(sc.Ack+".done", []byte(strconv.FormatInt(time.Now().UnixNano(), 10)), 0o644)
+	}()
 	for k := sc.From; k < sc.To; k++ {
 		op := sc.Steps[k]
 		switch op.K {
@@ -803,9 +808,16 @@ type c08ChildResult struct {
 	Obs     []*c08Obs
 	Acked   int
 	Elapsed time.Duration
+	Work    time.Duration // from hub open to the end of the script (children that finished)
 }
 
 func c08Child(sc c08Script, crash string) (*c08ChildResult, error) {
+	return c08ChildKill(sc, crash, -1)
+}
+
+// c08ChildKill: killAfter >= 0 sends SIGKILL that long after the child reported
+// its hub open (file Ack+".ready"): a kill at an arbitrary instant.
+func c08ChildKill(sc c08Script, crash string, killAfter time.Duration) (*c08ChildResult, error) {
 	scPath := filepath.Join(filepath.Dir(sc.Out), fmt.Sprintf("script-%d-%d.json", sc.From, sc.To))
 	b, _ := json.Marshal(sc)
 	if err := os.WriteFile(scPath, b, 0o644); err != nil {
@@ -813,6 +825,8 @@ func c08Child(sc c08Script, crash string) (*c08ChildResult, error) {
 	}
 	_ = os.Remove(sc.Out)
 	_ = os.Remove(sc.Ack)
+	_ = os.Remove(sc.Ack + ".ready")
+	_ = os.Remove(sc.Ack + ".done")
 	cmd := exec.Command(os.Args[0], "-test.run", "^TestVerifChild_C08$", "-test.count", "1", "-test.timeout", "120s")
 	cmd.Dir = filepath.Dir(sc.Out)
 	for _, e := range os.Environ() {
@@ -827,8 +841,53 @@ func c08Child(sc c08Script, crash string) (*c08ChildResult, error) {
 		cmd.Env = append(cmd.Env, "VERIF_CRASH="+crash)
 	}
 	t0 := time.Now()
-	out, err := cmd.CombinedOutput()
+	var out []byte
+	var err error
+	if killAfter < 0 {
+		out, err = cmd.CombinedOutput()
+	} else {
+		var buf strings.Builder
+		cmd.Stdout, cmd.Stderr = &buf, &buf
+		if err = cmd.Start(); err != nil {
+			return nil, err
+		}
+		exited := make(chan error, 1)
+		go func() { exited <- cmd.Wait() }()
+		deadline := time.Now().Add(60 * time.Second)
+		ready := false
+		for !ready && time.Now().Before(deadline) {
+			select {
+			case err = <-exited:
+				exited <- err
+				deadline = time.Now()
+			default:
+				if _, e := os.Stat(sc.Ack + ".ready"); e == nil {
+					ready = true
+				} else {
+					time.Sleep(200 * time.Microsecond)
+				}
+			}
+		}
+		if ready {
+			t1 := time.Now()
+			for time.Since(t1) < killAfter { // spin: sleep granularity is too coarse for sub-millisecond delays
+				if killAfter-time.Since(t1) > 2*time.Millisecond {
+					time.Sleep(time.Millisecond)
+				}
+			}
+		}
+		_ = cmd.Process.Kill()
+		err = <-exited
+		out = []byte(buf.String())
+	}
 	r := &c08ChildResult{Out: string(out), Elapsed: time.Since(t0)}
+	if a, e1 := os.ReadFile(sc.Ack + ".ready"); e1 == nil {
+		if b, e2 := os.ReadFile(sc.Ack + ".done"); e2 == nil {
+			x, _ := strconv.ParseInt(string(a), 10, 64)
+			y, _ := strconv.ParseInt(string(b), 10, 64)
+			r.Work = time.Duration(y - x)
+		}
+	}
 	kit.S().AddExtra("child processes", 1)
 	kit.S().AddExtra("child processes total ms", int(r.Elapsed.Milliseconds()))
 	if err != nil {
@@ -898,6 +957,7 @@ func TestVerif_C08_Crash(t *testing.T) {
 	defer kit.CleanupScratch()
 	budget := kit.EnvInt("VERIF_C08_CRASH_SCRIPTS", 12) // scripts per shard
 	perScript := kit.EnvInt("VERIF_C08_CRASH_POINTS", 4)
+	timed := kit.EnvInt("VERIF_C08_TIMED_KILLS", 2)
 	done := 0
 	rapid.Check(t, func(t *rapid.T) {
 		if done >= budget {
@@ -1029,8 +1089,75 @@ func TestVerif_C08_Crash(t *testing.T) {
 			cp := *cc
 			kit.S().Case(&cp, multiBatch[c.step] || runsAfterWrites >= 2, "crash:"+c.point, "type:"+cfg.JobType, "src:"+cfg.Kind)
 		}
+		// 3. kills at arbitrary instants: SIGKILL from outside after a drawn fraction of the
+		// counting run's working time. Not reproducible by seed (the case records the observed
+		// acknowledged prefix); what is judged is the same as above.
+		for ti := 0; ti < timed && r0.Work > 0; ti++ {
+			permille := rapid.IntRange(0, 1000).Draw(t, "killPermille")
+			delay := time.Duration(int64(r0.Work) * int64(permille) / 1000)
+			cc.Crash, cc.Step = fmt.Sprintf("timed:%dpermille", permille), -1
+			kit.Journal(cc)
+			sub := fmt.Sprintf("timed%d", ti)
+			ra, err := c08ChildKill(mk(sub, 0, len(steps), steps), "", delay)
+			if err != nil {
+				t.Fatalf("VERIF-INFRA timed child: %v", err)
+			}
+			if !ra.Killed {
+				kit.S().AddExtra("timed kill came after the script had ended", 1)
+				continue
+			}
+			kit.S().AddExtra("timed kills", 1)
+			inflight := "none"
+			if ra.Acked < len(steps) {
+				inflight = steps[ra.Acked].K
+			}
+			cc.Step = ra.Acked
+			st := append(append([]c08Op{}, steps...), c08Op{K: "run"})
+			// the step that was in flight is executed again (a client retrying)
+			scb := mk(sub, ra.Acked, len(st), st)
+			rb, err := c08Child(scb, "")
+			if err != nil {
+				t.Fatalf("VERIF-INFRA recovery child: %v", err)
+			}
+			if rb.Exit != 0 && kit.Known("F27") && c08EmptyMemtable(scb.Dir) {
+				// known finding F27 (input shape: the killed process left an empty memtable file):
+				// that start fails and sizes the file; carry on with the start after it
+				kit.S().Exclude("F27")
+				if rb, err = c08Child(scb, ""); err != nil {
+					t.Fatalf("VERIF-INFRA recovery child: %v", err)
+				}
+			}
+			if rb.Exit != 0 || rb.Acked != len(st)-ra.Acked {
+				if strings.Contains(rb.Out, "VERIF-INFRA") {
+					t.Fatalf("VERIF-INFRA recovery child: %s", rb.Out)
+				}
+				fail("recovery child after a kill %d permille into the script (step %d, %s, in flight) failed (exit=%d acked=%d):\n%s", permille, ra.Acked, inflight, rb.Exit, rb.Acked, c08Tail(rb.Out))
+			}
+			jd := &c08Judge{cfg: cfg}
+			if s := c08JudgeObs(jd, ra.Obs); s != "" {
+				fail("before the timed kill: %s", s)
+			}
+			if s := c08JudgeObs(jd, rb.Obs); s != "" {
+				fail("kill %d permille into the script (step %d, %s, in flight): %s", permille, ra.Acked, inflight, s)
+			}
+			if last := rb.Obs[len(rb.Obs)-1]; last.LastError != "" {
+				fail("fault-free run after a timed kill failed: %s", last.LastError)
+			}
+			cp := *cc
+			kit.S().Case(&cp, inflight == "run" && multiBatch[ra.Acked], "crash:timed", "timed-inflight:"+inflight, "type:"+cfg.JobType, "src:"+cfg.Kind)
+		}
 		kit.JournalDone()
 	})
+}
+
+func c08EmptyMemtable(hubDir string) bool {
+	mems, _ := filepath.Glob(filepath.Join(hubDir, "store", "*.mem"))
+	for _, m := range mems {
+		if st, err := os.Stat(m); err == nil && st.Size() == 0 {
+			return true
+		}
+	}
+	return false
 }
 
 func c08Tail(s string) string {
